@@ -3,6 +3,8 @@ step (llsym vs absm), plus solver queries on every state's dispatch that End and
 import z3
 from engines import chk, l3check, nm, absm
 from checks.c06 import consume
+from checks import c01
+from engines import gen_c01
 
 PID = 'C17'
 
@@ -18,10 +20,35 @@ def main(tier, replay):
         if '-feof-support' not in j['flags'] and '-feof-support' not in nm.split_args(j['src']):
             j['flags'] = tuple(j['flags']) + ('-feof-support',)
     consume(run, l3check.run_jobs(jobs), ('c06-diff',), PID)
+    # L2 clause: the reference interpreter's end-of-input step vs the abstract machine's End move after every input of length <= K
+    good, bad = c01.validate_refsem()
+    if bad or good < 30:
+        run.harness_error(f'reference interpreter does not reproduce the repo annotations: {bad[:3]}')
+    K = 3 if tier == 'quick' else 5
+    ejobs = []
+    for label, src in l3check.programs(tier):
+        if '-feof-support' not in nm.split_args(src):
+            src2 = ('// args: ' + ' '.join(nm.split_args(src) + ['-feof-support']) + '\n' + (src.split('\n', 1)[1] if src.startswith('// args:') else src))
+        else:
+            src2 = src
+        if len(src2) > 2500:
+            continue
+        ejobs.append({'label': label + ' +eof', 'src': src2, 'K': K, 'max_paths': 4000 if tier == 'quick' else 20000, 'ends': [True], 'kind': 'c17-end'})
+    for i, src in enumerate(gen_c01.programs(chk.seed() + 77, 30 if tier == 'quick' else 300)):
+        ejobs.append({'label': f'gen{i} +eof', 'src': '// args: -feof-support\n' + src, 'K': K, 'max_paths': 4000 if tier == 'quick' else 20000, 'ends': [True], 'kind': 'c17-end'})
+    st_before = dict(run.cov)
+    orig = l3check.work
+    l3check.work = c01.work
+    try:
+        consume(run, l3check.run_jobs(ejobs), ('c17-end',), PID)
+    finally:
+        l3check.work = orig
+    run.bounds['L2_end_clause'] = {'input_bytes_before_end': K, 'programs': len(ejobs)}
     run.cov['states'] = run.cov.get('states', 0)
-    return run.finish('For every program compiled with EOF support and every control state, one <p>_end call with all data symbolic is compared '
+    return run.finish('(1) For every program compiled with EOF support and every control state, one <p>_end call with all data symbolic is compared '
                       '(code, outputs, hook calls) with the abstract machine dispatching End on the same DFA: DONE iff an End move completes the program or '
-                      'the state is accepting, finish code iff the actions finish with one, FAIL otherwise.')
+                      'the state is accepting, finish code iff the actions finish with one, FAIL otherwise. (2) For every input of length <= K followed by end of input, the abstract machine over the compiled DFA '
+                      '(End move) is compared with the reference interpreter, for which End is never a data byte and completes a match exactly when the pattern is nullable there.')
 
 
 if __name__ == '__main__':
